@@ -610,12 +610,12 @@ def run_pipeline(ctx):
     t_start = time.time()
     cases = []          # dict(stream, argv, case|None, kind)
     # ---- valid stream
-    n_valid = 380 if quick else 3400
+    n_valid = 260 if quick else 3400
     for _ in range(n_valid):
         c = gen_base(rng)
         c['chain'] = gen_chain(rng)
         cases.append(dict(stream='valid', case=c, argv=render(rng, c)))
-    for _ in range(230 if quick else 2100):
+    for _ in range(160 if quick else 2100):
         c = gen_graph_base(rng)
         c['chain'] = gen_chain(rng, maxlen=2)
         cases.append(dict(stream='valid-graph', case=c, argv=render(rng, c)))
@@ -635,14 +635,14 @@ def run_pipeline(ctx):
         c.setdefault('chain', [])
         cases.append(dict(stream='thresholds', case=c, argv=render(rng, c)))
     # ---- malformed
-    n_mal = 560 if quick else 5200
+    n_mal = 380 if quick else 5200
     for i in range(n_mal):
         c = gen_base(rng, small=True) if i % 3 else gen_graph_base(rng, small=True)
         c['chain'] = gen_chain(rng, maxlen=2)
         argv, kind = gen_malformed(rng, c)
         cases.append(dict(stream='malformed', case=None, argv=argv, kind=kind))
     # without -q: the comment header is part of the bytes (sub-commands with a graph argument are outside then)
-    for i in range(130 if quick else 1100):
+    for i in range(90 if quick else 1100):
         c = gen_base(rng, small=True) if i % 8 else gen_graph_base(rng, small=True)
         c['chain'] = gen_chain(rng, maxlen=3)
         cases.append(dict(stream='verbose', case=c, argv=render(rng, c, quiet=rng.choice([[], [], ['-v'], ['--verbose'], ['-v', '--verbose']])), verbose=True))
